@@ -286,30 +286,50 @@ func c09Stsc(c *vf.Ctx, t *tableref.Tables) {
 		c.Fail("stsc decode", "consistent stsc decodes", det())
 		return
 	}
-	stsc := bx.(*mp4.StscBox)
+	// the same table built through the API (StscBox.AddEntry) must answer like the decoded one
+	built := &mp4.StscBox{}
+	for _, e := range t.Stsc {
+		if err := built.AddEntry(e.FirstChunk, e.SamplesPerChunk, e.DescID); err != nil {
+			c.Fail("stsc AddEntry", "a consistent entry can be added", map[string]interface{}{"case": det(), "err": err.Error()})
+			return
+		}
+	}
 	n := len(exp)
 	nChunks := len(t.Offsets)
-	type chunk struct{ nr, first, cnt, desc uint32 }
-	chunks := make([]chunk, nChunks)
+	chunks := make([]c09Chunk, nChunks)
 	for _, s := range exp {
-		chunks[s.Chunk-1] = chunk{s.Chunk, s.First, s.InChunk, s.DescID}
+		chunks[s.Chunk-1] = c09Chunk{s.Chunk, s.First, s.InChunk, s.DescID}
 	}
-	guard(c, "stsc", "stsc queries", det, func() {
+	for oi, stsc := range []*mp4.StscBox{bx.(*mp4.StscBox), built} {
+		how := ""
+		if oi == 1 {
+			how = " (table built with AddEntry)"
+		}
+		c09StscQueries(c, stsc, how, det, exp, n, chunksOf(chunks))
+	}
+}
+
+type c09Chunk struct{ nr, first, cnt, desc uint32 }
+
+func chunksOf(x []c09Chunk) []c09Chunk { return x }
+
+func c09StscQueries(c *vf.Ctx, stsc *mp4.StscBox, how string, det func() interface{}, exp []tableref.Sample, n int, chunks []c09Chunk) {
+	guard(c, "stsc"+how, "stsc queries", det, func() {
 		for _, s := range exp {
 			cn, first, err := stsc.ChunkNrFromSampleNr(int(s.Nr))
 			if err != nil || uint32(cn) != s.Chunk || uint32(first) != s.First {
-				c.Fail("stsc ChunkNrFromSampleNr", "ChunkNrFromSampleNr(nr) == (chunk, first sample in chunk) of expansion", map[string]interface{}{"case": det(), "nr": s.Nr, "got": []int{cn, first}, "want": []uint32{s.Chunk, s.First}})
+				c.Fail("stsc ChunkNrFromSampleNr"+how, "ChunkNrFromSampleNr(nr) == (chunk, first sample in chunk) of expansion", map[string]interface{}{"case": det(), "nr": s.Nr, "got": []int{cn, first}, "want": []uint32{s.Chunk, s.First}})
 				return
 			}
 		}
 		for _, ch := range chunks {
 			g := stsc.GetChunk(ch.nr)
 			if g.ChunkNr != ch.nr || g.StartSampleNr != ch.first || g.NrSamples != ch.cnt {
-				c.Fail("stsc GetChunk", "GetChunk(chunkNr) == chunk contents of expansion", map[string]interface{}{"case": det(), "chunk": ch.nr, "got": g})
+				c.Fail("stsc GetChunk"+how, "GetChunk(chunkNr) == chunk contents of expansion", map[string]interface{}{"case": det(), "chunk": ch.nr, "got": g})
 				return
 			}
 			if id := stsc.GetSampleDescriptionID(int(ch.nr)); id != ch.desc {
-				c.Fail("stsc GetSampleDescriptionID", "GetSampleDescriptionID(chunkNr) == description id of that chunk", map[string]interface{}{"case": det(), "chunk": ch.nr, "got": id, "want": ch.desc})
+				c.Fail("stsc GetSampleDescriptionID"+how, "GetSampleDescriptionID(chunkNr) == description id of that chunk", map[string]interface{}{"case": det(), "chunk": ch.nr, "got": id, "want": ch.desc})
 				return
 			}
 		}
@@ -327,7 +347,7 @@ func c09Stsc(c *vf.Ctx, t *tableref.Tables) {
 					}
 				}
 				if !ok {
-					c.Fail("stsc GetContainingChunks", "GetContainingChunks(a,b) == chunks of the expansion holding samples a..b", map[string]interface{}{"case": det(), "a": a, "b": b, "got": got, "err": fmt.Sprint(err)})
+					c.Fail("stsc GetContainingChunks"+how, "GetContainingChunks(a,b) == chunks of the expansion holding samples a..b", map[string]interface{}{"case": det(), "a": a, "b": b, "got": got, "err": fmt.Sprint(err)})
 					return
 				}
 			}
